@@ -30,7 +30,7 @@ def _run_check(prop, extra_env, args, timeout):
     return p.returncode, p.stdout + p.stderr, time.time() - t0
 
 
-def determinism(tier, base_seed):
+def determinism(tier, base_seed, only=None):
     n = {"quick": 120, "thorough": 1500}[tier]
     scratch = tempfile.mkdtemp(prefix="dsim-det-")
     configs = [("A", {"DSIM_LANES": "16", "DSIM_HASHSEED": "0"}),
@@ -40,6 +40,8 @@ def determinism(tier, base_seed):
     ok = True
     try:
         for prop in sorted(PROPS):
+            if only is not None and prop not in only:
+                continue
             digs = {}
             for name, env in configs:
                 out = os.path.join(scratch, "%s-%s.json" % (prop, name))
@@ -71,7 +73,8 @@ def determinism(tier, base_seed):
         shutil.rmtree(scratch, ignore_errors=True)
     report["ok"] = ok
     os.makedirs(os.path.join(VERIF, "evidence"), exist_ok=True)
-    with open(os.path.join(VERIF, "evidence", "selftest-determinism.json"), "w") as f:
+    name = "selftest-determinism.json" if only is None else "selftest-determinism-%s.json" % "-".join(sorted(only))
+    with open(os.path.join(VERIF, "evidence", name), "w") as f:
         json.dump(report, f, indent=1)
     return 0 if ok else 1
 
@@ -171,7 +174,7 @@ def main(what, tier, base_seed):
     only = os.environ.get("DSIM_ONLY")
     only = set(only.split(",")) if only else None
     if what == "selftest-determinism":
-        return determinism(tier, base_seed)
+        return determinism(tier, base_seed, only)
     if what == "selftest-sensitivity":
         return sensitivity(tier, base_seed, only)
     print("unknown selftest %r" % what)
